@@ -31,7 +31,13 @@ def run(ctx, mode, meta):
         kw = {}
         if conv == 'ugrid':
             kw['supplied'] = subsets[(case // len(CONVENTIONS)) % len(subsets)]
-        spec = {'case': case, 'convention': conv, 'kw': {k: list(v) for k, v in kw.items()}}
+            if (case // (len(CONVENTIONS) * len(subsets))) % 3 == 2 and kw['supplied'] in ((), ('face_edge',), ('edge_node',)):
+                # every third pass: a mesh that knows its face neighbours and nothing at all about edges (no edge
+                # dimension, no edge table); the neighbour table must be renumbered with the faces all the same
+                kw['supplied'] = ('face_face',)
+            if kw['supplied'] == ('face_face',):
+                kw['declare_edge_dim'] = False
+        spec = {'case': case, 'convention': conv, 'kw': {k: list(v) if isinstance(v, tuple) else v for k, v in kw.items()}}
         ctx.run_case(spec, one_case, obs, rng, conv, kw, spec, mode)
 
 
